@@ -626,3 +626,55 @@ func (m *Machine) sprintfConcat(f string, args []Value) (*sym.Term, bool) {
 	}
 	return sym.Concat(r, sym.Str(lit)), true
 }
+
+// ---- sync.Map as an engine map keyed by interface values
+
+func (m *Machine) syncMap(v Value) *Map {
+	p, ok := v.(*Value)
+	if !ok || p == nil {
+		m.goPanicf("nil sync.Map")
+	}
+	n := m.natives[p]
+	if n == nil {
+		n = m.newNative("syncmap", &Map{})
+		m.natives[p] = n
+	}
+	return n.Data.(*Map)
+}
+
+func init() {
+	natives["(*sync.Map).Load"] = func(m *Machine, c *frame, fn *ssa.Function, a []Value) Value {
+		if e := m.mapFind(m.syncMap(a[0]), a[1]); e != nil {
+			return Tuple{copyVal(e.val), sym.True()}
+		}
+		return Tuple{Iface{}, sym.False()}
+	}
+	natives["(*sync.Map).Store"] = func(m *Machine, c *frame, fn *ssa.Function, a []Value) Value {
+		m.mapInsert(m.syncMap(a[0]), a[1], a[2])
+		return nil
+	}
+	natives["(*sync.Map).Delete"] = func(m *Machine, c *frame, fn *ssa.Function, a []Value) Value {
+		m.mapDelete(m.syncMap(a[0]), a[1])
+		return nil
+	}
+	natives["(*sync.Map).LoadOrStore"] = func(m *Machine, c *frame, fn *ssa.Function, a []Value) Value {
+		mp := m.syncMap(a[0])
+		if e := m.mapFind(mp, a[1]); e != nil {
+			return Tuple{copyVal(e.val), sym.True()}
+		}
+		mp.entries = append(mp.entries, &mapEntry{key: copyVal(a[1]), val: copyVal(a[2])})
+		return Tuple{a[2], sym.False()}
+	}
+	natives["(*sync.Map).Range"] = func(m *Machine, c *frame, fn *ssa.Function, a []Value) Value {
+		mp := m.syncMap(a[0])
+		for _, e := range append([]*mapEntry{}, mp.entries...) {
+			if e.deleted {
+				continue
+			}
+			if !m.branch(m.term(m.call(c, 0, a[1], []Value{copyVal(e.key), copyVal(e.val)}))) {
+				break
+			}
+		}
+		return nil
+	}
+}
